@@ -58,6 +58,7 @@ type jobResult struct {
 	Calls      []callRecord   `json:"calls,omitempty"` // builtin facet: one record per executed API call
 	Note       string         `json:"note,omitempty"`
 	Counts     map[string]int `json:"counts,omitempty"`
+	Millis     int64          `json:"ms,omitempty"`
 }
 
 // ---- worker side ------------------------------------------------------------------------------------
@@ -108,6 +109,8 @@ func serve(raw json.RawMessage) json.RawMessage {
 		activeKnown[k] = true
 	}
 	var res jobResult
+	started := time.Now()
+	defer func() { _ = started }()
 	switch j.Kind {
 	case "source":
 		res = runSource(*j.Source)
@@ -124,6 +127,7 @@ func serve(raw json.RawMessage) json.RawMessage {
 	default:
 		res.Note = "unknown job kind " + j.Kind
 	}
+	res.Millis = time.Since(started).Milliseconds()
 	b, err := json.Marshal(res)
 	if err != nil {
 		b, _ = json.Marshal(jobResult{Note: "cannot encode result: " + err.Error()})
@@ -225,13 +229,6 @@ func guard(fn func()) (panicked bool, budget bool, text string) {
 				budget = true
 				return
 			}
-			// otto wraps interrupt panics in an unexported type while they unwind; some entry points
-			// (Otto.Call, Value.Export …) let the wrapper out. It is still the host's own panic.
-			if fmt.Sprintf("%T", p) == "otto.interruptPanic" { // the only interrupt function on these runtimes is the budget
-				budget = true
-				wrappedSentinels++
-				return
-			}
 			panicked = true
 			text = describePanic(p)
 		}
@@ -239,8 +236,6 @@ func guard(fn func()) (panicked bool, budget bool, text string) {
 	fn()
 	return
 }
-
-var wrappedSentinels int
 
 func describePanic(p interface{}) string {
 	s := fmt.Sprintf("%T: %v", p, p)
